@@ -3,6 +3,7 @@
 package checks
 
 import (
+	"testing/fstest"
 	"bytes"
 	"encoding/json"
 	"fmt"
@@ -384,6 +385,43 @@ var c14Mutators = []c14Mut{
 	}},
 	{"error-with-operator-term", execQ("catch(atom_length(1 + 2, _), _, true), catch(foo:bar, _, true).")},
 	{"consult-fs", func(p *prolog.Interpreter) error { return p.Exec(":- initialization(assertz(iso_init(done))).") }},
+	// every interpreter has a file system of its own (Interpreter.FS), in which a file of the same name holds another text
+	// of the same size: A loads its file after B has loaded B's, in each of the ways to load a file
+	{"consult-own-fs", c14LoadOwn("consult(iso_lib).")},
+	{"ensure_loaded-own-fs", func(p *prolog.Interpreter) error {
+		if err := p.Exec(":- ensure_loaded(iso_lib).\n"); err != nil {
+			return err
+		}
+		return c14OwnFact(p)
+	}},
+	{"list-own-fs", c14LoadOwn("[iso_lib].")},
+	{"include-own-fs", func(p *prolog.Interpreter) error {
+		if err := p.Exec(":- include(iso_lib).\n"); err != nil {
+			return err
+		}
+		return c14OwnFact(p)
+	}},
+}
+
+// c14LoadOwn loads iso_lib.pl from the interpreter's own file system and checks that it is A's text that was loaded.
+func c14LoadOwn(q string) func(p *prolog.Interpreter) error {
+	return func(p *prolog.Interpreter) error {
+		if err := execQ(q)(p); err != nil {
+			return err
+		}
+		return c14OwnFact(p)
+	}
+}
+
+func c14OwnFact(p *prolog.Interpreter) error {
+	if got := c14Answers(p, "findall(X, iso_lib(X), L)."); !strings.Contains(got, "[a]") {
+		return fmt.Errorf("interpreter A loaded iso_lib.pl from its own file system (iso_lib(a).) and answers %s", got)
+	}
+	return nil
+}
+
+func c14FS(who string) fstest.MapFS {
+	return fstest.MapFS{"iso_lib.pl": &fstest.MapFile{Data: []byte("iso_lib(" + who + ").\n")}}
 }
 
 var c14Observers = []string{
@@ -409,6 +447,7 @@ var c14Observers = []string{
 	"number_codes(X, \"42\"), atom_chars(Y, \"ab\").",
 	"catch(iso_init(X), error(E, _), true).",
 	"peek_char(C).",
+	"catch((consult(iso_lib), findall(X, iso_lib(X), L)), error(E, _), true).",
 }
 
 // the Go-level text of an error whose culprit is an operator term uses package-level write options
@@ -452,6 +491,7 @@ func c14IsolationRun(mi int, nilIO bool) (exp, act string, ok bool) {
 	a, _ := newI()
 	b, bout := newI()
 	fresh, fout := newI()
+	a.FS, b.FS, fresh.FS = c14FS("a"), c14FS("b"), c14FS("b")
 	before := c14Observe(b, bout)
 	if err := c14Mutators[mi].do(a); err != nil && !nilIO {
 		return "the mutator runs in interpreter A", "mutator " + c14Mutators[mi].name + " failed: " + err.Error(), false
@@ -649,7 +689,7 @@ func c14Replay(b []byte) (string, string, bool) {
 func init() {
 	h.Register(&h.Check{
 		ID: "C14",
-		Rule: "(a) atom table: engine/atom.go and engine/variable.go are rebuilt with sync / sync/atomic routed through the scheduler shim; all pairs of thread programs of <= 2 operations (and all triples of 1-operation programs) over {NewAtom(a), NewAtom(b), NewAtom(a).String()} with names that are new in every execution, under every interleaving at the lock/unlock/atomic operations within a preemption bound; each recorded call/return history is checked for linearizability against a sequential name<->id map with porcupine, and afterwards every name has one id and every id one name; (b) pairs of interpreters each running one of 5 small queries (colliding atom creation, variable creation, error terms) under every schedule with at most D deviations from the default schedule (D = 1 quick, 2 thorough): each answers as it does alone; (c) isolation matrix: 19 mutators (clauses, loading, operators, flags, char conversions, streams, current output, Register, initialization, I/O) in interpreter A x 21 observers in interpreter B (listings, current_op/3, reading/writing operator-dependent terms, flags, char conversions, stream properties, the Go error text of an exception with an operator culprit): B's observations equal those of a fresh interpreter; (d) a free-running -race pass of 8 concurrently created/loaded/queried interpreters per round, plus one round in which 8 interpreters run the whole goal matrix at once; (e) results kept by the caller: interpreter A runs EVERY registered procedure x all tuples of 8 argument shapes (arity >= 4: 4 shapes, >= 6: 2) and its caller keeps each error value and raw first answer; interpreter B then runs the same goals; every kept value must render exactly as before B ran, and B's errors are A's; finally a third interpreter runs the whole matrix and every value still held is rendered once more; (f) fresh atoms: a name no interpreter has seen is first interned in interpreter A through each of 13 routes (parser, quoted writes of several kinds - which lex the name -, atom_codes, atom_chars, atom_concat, sub_atom, read_term, op/3, =..), interpreter B mentions it (by text / by atom_codes) and keeps the atom, A and a third interpreter create other names of the same length (four lengths) through every route, and B's atom must still be spelled as before and be the atom its name denotes. Distinct = scenario.",
+		Rule: "(a) atom table: engine/atom.go and engine/variable.go are rebuilt with sync / sync/atomic routed through the scheduler shim; all pairs of thread programs of <= 2 operations (and all triples of 1-operation programs) over {NewAtom(a), NewAtom(b), NewAtom(a).String()} with names that are new in every execution, under every interleaving at the lock/unlock/atomic operations within a preemption bound; each recorded call/return history is checked for linearizability against a sequential name<->id map with porcupine, and afterwards every name has one id and every id one name; (b) pairs of interpreters each running one of 5 small queries (colliding atom creation, variable creation, error terms) under every schedule with at most D deviations from the default schedule (D = 1 quick, 2 thorough): each answers as it does alone; (c) isolation matrix: 19 mutators (clauses, loading, operators, flags, char conversions, streams, current output, Register, initialization, I/O) in interpreter A x 21 observers in interpreter B (listings, current_op/3, reading/writing operator-dependent terms, flags, char conversions, stream properties, the Go error text of an exception with an operator culprit): B's observations equal those of a fresh interpreter; (d) a free-running -race pass of 8 concurrently created/loaded/queried interpreters per round, plus one round in which 8 interpreters run the whole goal matrix at once; (e) results kept by the caller: interpreter A runs EVERY registered procedure x all tuples of 8 argument shapes (arity >= 4: 4 shapes, >= 6: 2) and its caller keeps each error value and raw first answer; interpreter B then runs the same goals; every kept value must render exactly as before B ran, and B's errors are A's; finally a third interpreter runs the whole matrix and every value still held is rendered once more; (f) fresh atoms: a name no interpreter has seen is first interned in interpreter A through each of 13 routes (parser, quoted writes of several kinds - which lex the name -, atom_codes, atom_chars, atom_concat, sub_atom, read_term, op/3, =..), interpreter B mentions it (by text / by atom_codes) and keeps the atom, A and a third interpreter create other names of the same length (four lengths) through every route, and B's atom must still be spelled as before and be the atom its name denotes. Distinct = scenario.; the isolation matrix also gives every interpreter a file system of its own in which a file of one name holds another text of the same size, loaded in 4 ways (consult/1, ensure_loaded/1, list notation, include/1)",
 		Explanation: "state = scheduler state of a scenario (per-thread progress, lock state); transition = one lock/unlock/atomic/channel operation of the real code executed under the controlled scheduler; every complete schedule is one trace whose recorded history is validated against the sequential model; the race pass is dynamic analysis on free-running executions of the same kind of bodies",
 		Assumptions: []string{"interleavings are explored at synchronisation operations only, up to the stated preemption bound (sequential consistency); unsynchronised accesses are left to the race detector pass", "variable numbers come from a process-wide counter and are not compared"},
 		Work:        c14Work,
